@@ -1,0 +1,124 @@
+//go:build verif
+
+package round
+
+// Machine-checked contracts for /verif/govc (contract-based deductive verification).
+// This file contains comments only; it is compiled only with -tags verif and adds no code.
+
+// ---------------------------------------------------------------- roundStartingStorage (C40)
+
+//@ spec ascRounds(s *roundStartingStorage) bool = forall i in 0..len(s.rounds) :: forall j in i+1..len(s.rounds) :: s.rounds[i] < s.rounds[j]
+//@ spec nonnegRounds(s *roundStartingStorage) bool = forall i in 0..len(s.rounds) :: s.rounds[i] >= 0
+//@ spec roundsInItems(s *roundStartingStorage) bool = forall i in 0..len(s.rounds) :: s.rounds[i] in s.items
+//@ spec itemsInRounds(s *roundStartingStorage) bool = forall r int64 :: r in s.items ==> exists i in 0..len(s.rounds) :: s.rounds[i] == r
+//@ spec maxIsLast(s *roundStartingStorage) bool = (len(s.rounds) == 0 ==> s.max == 0) && (len(s.rounds) > 0 ==> s.max == s.rounds[len(s.rounds)-1])
+//@ spec wfRS(s *roundStartingStorage) bool = s != nil && s.mu != nil && s.items != nil && ascRounds(s) && nonnegRounds(s) && roundsInItems(s) && itemsInRounds(s) && len(s.items) == len(s.rounds) && maxIsLast(s)
+//@ spec isFloor(s *roundStartingStorage, q int64, r int64) bool = r <= q && (exists i in 0..len(s.rounds) :: s.rounds[i] == r) && (forall j in 0..len(s.rounds) :: s.rounds[j] <= q ==> s.rounds[j] <= r)
+//@ spec noFloor(s *roundStartingStorage, q int64) bool = forall j in 0..len(s.rounds) :: s.rounds[j] > q
+
+//@ func (*roundStartingStorage).calcNearestRound
+//@   prop C40
+//@   requires wfRS(s)
+//@   ensures len(s.rounds) > 0 && result != -1 ==> isFloor(s, round, result)
+//@   ensures len(s.rounds) > 0 && result == -1 ==> noFloor(s, round)
+//@   ensures len(s.rounds) == 0 ==> result == -1
+//@   modifies nothing
+//@   loop 1 header "for i := 0; i < len(s.rounds); i++"
+//@   loop 1 invariant 0 <= i && i <= len(s.rounds)
+//@   loop 1 invariant forall j in 0..i :: s.rounds[j] <= round
+//@   loop 1 invariant i == 0 ==> found == -1
+//@   loop 1 invariant i > 0 ==> found == s.rounds[i-1]
+//@   loop 1 decreases len(s.rounds) - i
+
+//@ func (*roundStartingStorage).putToSlice
+//@   prop C40
+//@   requires s != nil && ascRounds(s) && (forall i in 0..len(s.rounds) :: s.rounds[i] != round)
+//@   ensures ascRounds(s)
+//@   ensures len(s.rounds) == old(len(s.rounds)) + 1
+//@   ensures exists p in 0..len(s.rounds) witness index+1 :: s.rounds[p] == round && (forall k in 0..p :: s.rounds[k] == old(s.rounds[k])) && (forall k in p+1..len(s.rounds) :: s.rounds[k] == old(s.rounds[k-1]))
+//@   modifies s.rounds, s.rounds[*]
+//@   loop 1 header "for i := len(s.rounds) - 1; i >= 0; i--"
+//@   loop 1 invariant -1 <= i && i < len(s.rounds)
+//@   loop 1 invariant forall k in i+1..len(s.rounds) :: s.rounds[k] > round
+//@   loop 1 decreases i + 1
+
+//@ func (*roundStartingStorage).Get
+//@   prop C40
+//@   requires wfRS(s) && held(s.mu) == 0
+//@   ensures noFloor(s, round) ==> result == nil
+//@   ensures forall r int64 :: isFloor(s, round, r) ==> result == s.items[r]
+//@   modifies s.mu.$all
+//@   lock-balanced s.mu
+
+//@ func (*roundStartingStorage).FindRoundIndex
+//@   prop C40
+//@   requires wfRS(s) && held(s.mu) == 0
+//@   ensures result == -1 <==> noFloor(s, round)
+//@   ensures result != -1 ==> 0 <= result && result < len(s.rounds) && s.rounds[result] <= round
+//@   ensures result != -1 && result + 1 < len(s.rounds) ==> s.rounds[result+1] > round
+//@   modifies s.mu.$all
+//@   lock-balanced s.mu
+//@   loop 1 invariant 0 <= i && i <= len(s.rounds)
+//@   loop 1 invariant forall j in 0..i :: s.rounds[j] <= round
+//@   loop 1 invariant found == i - 1
+//@   loop 1 invariant held(s.mu) == 0 && rheld(s.mu) == 1
+//@   loop 1 decreases len(s.rounds) - i
+
+//@ func (*roundStartingStorage).GetLatest
+//@   prop C40
+//@   requires wfRS(s) && held(s.mu) == 0
+//@   ensures len(s.rounds) == 0 ==> result == nil
+//@   ensures len(s.rounds) > 0 ==> result == s.items[s.rounds[len(s.rounds)-1]]
+//@   modifies s.mu.$all
+//@   lock-balanced s.mu
+
+//@ func (*roundStartingStorage).GetRound
+//@   prop C40
+//@   requires wfRS(s) && held(s.mu) == 0 && 0 <= i && i < len(s.rounds)
+//@   ensures result == s.rounds[i]
+//@   modifies s.mu.$all
+//@   lock-balanced s.mu
+
+//@ func (*roundStartingStorage).Put
+//@   prop C40
+//@   requires wfRS(s) && round >= 0 && held(s.mu) == 0 && rheld(s.mu) == 0
+//@   ensures result == nil
+//@   ensures s.mu == old(s.mu) && s.items == old(s.items)
+//@   ensures ascRounds(s) && nonnegRounds(s) && roundsInItems(s) && len(s.items) == len(s.rounds) && maxIsLast(s)
+//@   ensures round in s.items && s.items[round] == entity
+//@   ensures forall r int64 :: r != round ==> ((r in s.items) == old(r in s.items)) && s.items[r] == old(s.items[r])
+//@   lock-balanced s.mu
+
+// Prune(round) removes every entry up to and including `round`. The newest entry must be kept
+// (s.max would go stale otherwise); the only caller, Chain.PruneRoundStorage, keeps >= 1 entry.
+//@ func (*roundStartingStorage).Prune
+//@   prop C40
+//@   requires wfRS(s) && held(s.mu) == 0 && rheld(s.mu) == 0
+//@   requires len(s.rounds) > 0 ==> round < s.max
+//@   ensures result == nil <==> old(round in s.items)
+//@   ensures s.mu == old(s.mu) && s.items == old(s.items) && s.max == old(s.max)
+//@   ensures result != nil ==> len(s.rounds) == old(len(s.rounds)) && (forall k in 0..len(s.rounds) :: s.rounds[k] == old(s.rounds[k]))
+//@   ensures result != nil ==> forall r int64 :: ((r in s.items) == old(r in s.items)) && s.items[r] == old(s.items[r])
+//@   ensures result == nil ==> exists p in 0..old(len(s.rounds)) witness pruneIndex :: old(s.rounds[p]) == round && len(s.rounds) == old(len(s.rounds)) - p - 1 && (forall k in 0..len(s.rounds) :: s.rounds[k] == old(s.rounds[k+p+1]))
+//@   ensures result == nil ==> forall r int64 :: r in s.items ==> old(r in s.items) && r > round
+//@   ensures result == nil ==> forall r int64 :: old(r in s.items) && r > round ==> r in s.items && s.items[r] == old(s.items[r])
+//@   ensures result == nil ==> len(s.rounds) > 0 && ascRounds(s) && nonnegRounds(s) && roundsInItems(s) && maxIsLast(s)
+//@   lock-balanced s.mu
+//@   loop 1 header "for i := 0; i < len(s.rounds); i++"
+//@   loop 1 invariant 0 <= i && i <= len(s.rounds) && pruneIndex == -1
+//@   loop 1 invariant len(pruneRounds) == i && fresh(pruneRounds)
+//@   loop 1 invariant forall k in 0..i :: pruneRounds[k] == s.rounds[k]
+//@   loop 1 invariant forall k in 0..i :: s.rounds[k] == pruneRounds[k]
+//@   loop 1 invariant forall k in 0..i :: s.rounds[k] != round
+//@   loop 1 invariant s.rounds == old(s.rounds) && (forall k in 0..len(s.rounds) :: s.rounds[k] == old(s.rounds[k]))
+//@   loop 1 decreases len(s.rounds) - i
+//@   loop 2 invariant s.rounds == old(s.rounds) && s.mu == old(s.mu) && s.items == old(s.items) && s.max == old(s.max) && held(s.mu) == 1 && rheld(s.mu) == 0
+//@   loop 2 invariant forall k in 0..len(s.rounds) :: s.rounds[k] == old(s.rounds[k])
+//@   loop 2 invariant forall r int64 :: (r in s.items) ==> old(r in s.items) && s.items[r] == old(s.items[r])
+//@   loop 2 invariant forall r int64 :: old(r in s.items) && r > round ==> r in s.items
+//@   loop 2 invariant len(pruneRounds) == pruneIndex + 1 && 0 <= pruneIndex && pruneIndex < len(s.rounds) && s.rounds[pruneIndex] == round
+//@   loop 2 invariant forall k in 0..len(pruneRounds) :: pruneRounds[k] == old(s.rounds[k]) && pruneRounds[k] <= round
+//@   loop 2 invariant forall k in 0..len(pruneRounds) :: old(s.rounds[k]) == pruneRounds[k]
+//@   loop 2 invariant -1 <= $idx && $idx < len(pruneRounds)
+//@   loop 2 invariant forall k in 0..$idx+1 :: !(pruneRounds[k] in s.items)
+//@   loop 2 invariant forall r int64 :: r in s.items ==> r > round || (exists k in $idx+1..len(pruneRounds) :: pruneRounds[k] == r)
